@@ -93,16 +93,15 @@ fn map_try_from_iter_1<const DECL: usize, const VK: usize>() {
                     assert!(false, "the entry is in the map");
                 }
             }
-            kani::cover!(true, "homogeneous map accepted");
             std::mem::forget(m);
         }
         Err(e) => {
             assert!(ty::<DECL>() != ty::<VK>(), "a homogeneous map must be accepted");
             assert!(e.actual == ty::<VK>(), "the error names the offending element's type");
-            kani::cover!(true, "heterogeneous map refused");
             std::mem::forget(e);
         }
     }
+    kani::cover!(true);
 }
 
 // NOT REGISTERED (removed): the same with a well-typed entry (Int in Map<Int>) and with container elements - building
